@@ -4,8 +4,8 @@ CONSTANTS
   Groups = {"", "g1", "g2"}
   Kinds = {"opt", "multi", "toggle"}
   LetterArgs = {"x", "y", "xy", ""}
-  EnvArgs = {"E1", "E2"}
-  MetaArgs = {"M", ""}
+  EnvArgs = {"E1"}
+  MetaArgs = {""}
   MaxObjs = 2
 INVARIANTS NamesUnique LettersOneChar Unambiguous
 PROPERTIES Monotone MoveChangesNothing
